@@ -12,7 +12,7 @@
 (* C08: Faithful, NeverUnsubscribed, ErrorConsumesExactlyOffender,         *)
 (* NextFrameIntact, LossReportedAndDisconnected.                           *)
 (***************************************************************************)
-EXTENDS Integers, Sequences, FiniteSets, TLC, Json
+EXTENDS Integers, Sequences, SequencesExt, FiniteSets, TLC, Json
 
 CONSTANTS Types,      \* message types with a local definition
           MaxFrames,  \* frames that may arrive in one behaviour
@@ -29,7 +29,8 @@ Classes == {"good", "zerolen", "unknown", "wrongsize", "wrongsize0", "wrongver",
 TimeoutClasses == {"zero", "pos", "tiny", "block"}   \* tiny: a positive timeout shorter than one read
 
 VARIABLES q,          \* unread frames: records [cls, t, id]
-          cut,        \* "open" | "fin" (orderly close after q) | "finmid" (close inside the last frame) | "rst"
+          cut,        \* "open" | "fin" (orderly close after q) | "rst" | close inside the last frame: "finmid" (inside its
+                      \* header) / "finbody" (header complete, payload missing or cut short)
           csub, suball, connected,
           nfr, nrd, last, hist
 vars == <<q, cut, csub, suball, connected, nfr, nrd, last, hist>>
@@ -45,12 +46,24 @@ Decode(f, sync) ==
     [] f.cls \in {"wrongver", "wrongver0"} /\ sync -> "InvalidMessageDefinition"
     [] OTHER -> "ok"
 
+(* what the header alone tells: the type is unknown, or the announced size is not the size of the local definition *)
+EarlyDecode(f, sync) ==
+  CASE f.cls = "unknown" -> "UnknownMessageType"
+    [] f.cls \in {"wrongsize", "wrongboth"} -> "InvalidMessageDefinition"
+    [] f.cls = "wrongver" /\ sync -> "InvalidMessageDefinition"          \* the version is in the header, too
+    [] OTHER -> "ok"
+
 (* one call of read_message.  S: [q, cut, csub, suball, connected]
    result: [res |-> "msg"|"none"|"raise"|"blocks", id, exc, q (rest), connected] *)
 RECURSIVE ReadOp(_, _, _, _)
 ReadOp(S, tm, ack, sync) ==
   IF ~S.connected THEN [res |-> "raise", exc |-> "NotConnectedError", id |-> 0, q |-> S.q, connected |-> FALSE]
-  ELSE IF Len(S.q) = 0 \/ (Len(S.q) = 1 /\ S.cut = "finmid")
+  ELSE IF Len(S.q) = 1 /\ S.cut = "finbody" /\ EarlyDecode(Head(S.q), sync) # "ok"
+  THEN (* DEVIATION the code makes and the property tolerates: the header of the torn last frame is complete and already
+          shows that the frame cannot be decoded (unknown type / other size / other version with the sync check): the documented decode error is raised for
+          it, the loss of the connection is reported by the NEXT call (q is empty then) *)
+       [res |-> "raise", exc |-> EarlyDecode(Head(S.q), sync), id |-> Head(S.q).id, q |-> <<>>, connected |-> TRUE]
+  ELSE IF Len(S.q) = 0 \/ (Len(S.q) = 1 /\ S.cut \in {"finmid", "finbody"})
   THEN (* nothing (complete) left to read *)
        IF S.cut = "open"
        THEN IF tm = "block" THEN [res |-> "blocks", exc |-> "", id |-> 0, q |-> S.q, connected |-> TRUE]
@@ -85,7 +98,8 @@ Arrive(cls, t) ==
 
 Cut(kind) ==
   /\ cut = "open" /\ connected
-  /\ kind = "finmid" => Len(q) > 0
+  /\ kind \in {"finmid", "finbody"} => Len(q) > 0
+  /\ kind = "finbody" => Last(q).cls \notin {"zerolen", "wrongsize0", "wrongver0", "ack"}       \* it has a payload to cut
   /\ cut' = kind
   /\ hist' = Log([a |-> "Cut", kind |-> kind])
   /\ UNCHANGED <<q, csub, suball, connected, nfr, nrd, last>>
@@ -112,7 +126,7 @@ Read(tm, ack, sync) ==
 
 Next ==
   \/ \E cls \in Classes : \E t \in Types : Arrive(cls, t)
-  \/ \E k \in {"fin", "finmid", "rst"} : Cut(k)
+  \/ \E k \in {"fin", "finmid", "finbody", "rst"} : Cut(k)
   \/ \E op \in {"sub", "unsub", "suball", "unsuball"} : \E t \in Types : SubChange(op, t)
   \/ \E tm \in TimeoutClasses : \E ack, sync \in BOOLEAN : Read(tm, ack, sync)
 
